@@ -1,0 +1,78 @@
+//go:build verif
+
+package aeskw
+
+// Contracts for govc (contract-based deductive verification; see /verif/DESIGN.md).
+// This file holds only comments and is compiled only with -tags verif.
+
+//@ func arrXor
+//@   tags C07 C17
+//@   requires len(arrR) >= len(arrL)
+//@   modifies nothing
+//@   ensures fresh(result) && len(result) == len(arrL)
+//@   loop 0 invariant -1 <= rangeindex && rangeindex < len(arrL)
+//@   loop 0 invariant len(out) == len(arrL)
+//@   loop 0 decreases len(arrL) - rangeindex
+
+//@ func arrConcat
+//@   tags C03 C07 C17
+//@   requires len(arrays) >= 1
+//@   modifies nothing
+//@   ensures fresh(result)
+//@   ensures [C03.kw.concat.len8] (forall j :: 0 <= j && j < len(arrays) ==> len(arrays[j]) == 8) ==> len(result) == 8 * len(arrays)
+//@   loop 0 invariant -1 <= rangeindex && rangeindex < len(arrays) - 1
+//@   loop 0 invariant fresh(out)
+//@   loop 0 invariant (forall j :: 0 <= j && j < len(arrays) ==> len(arrays[j]) == 8) ==> len(out) == 8 * (rangeindex + 2)
+//@   loop 0 decreases len(arrays) - rangeindex
+
+// Wrap (RFC 3394 §2.2.1). Loops in source order: 0 = split cek into r[0..n); 1 = j in 0..5; 2 = i in 1..n;
+// 3 = output blocks; 4 = bytes of one output block. `block` is "the given AES cipher": 16-byte blocks.
+//@ func Wrap
+//@   tags C03 C07 C17
+//@   requires block != nil && block.blocksize == 16
+//@   modifies nothing
+//@   ensures [C03.kw.wrap.blocks] len(cek) % 8 != 0 <==> result1 != nil
+//@   ensures [C03.kw.wrap.noout] result1 != nil ==> result == nil
+//@   ensures [C03.kw.wrap.len] result1 == nil ==> (fresh(result) && len(result) == len(cek) + 8)
+//@   loop 0 invariant -1 <= rangeindex && rangeindex < len(r) && len(r) == n && fresh(r) && 8 * n == len(cek)
+//@   loop 0 invariant forall k :: 0 <= k && k <= rangeindex ==> (len(r[k]) == 8 && fresh(r[k]))
+//@   loop 0 decreases len(r) - rangeindex
+//@   loop 1 invariant 0 <= j && j <= 6
+//@   loop 1 invariant forall k :: 0 <= k && k < n ==> (len(r[k]) == 8 && fresh(r[k]))
+//@   loop 1 decreases 6 - j
+//@   loop 2 invariant 1 <= i && i <= n + 1
+//@   loop 2 invariant forall k :: 0 <= k && k < n ==> (len(r[k]) == 8 && fresh(r[k]))
+//@   loop 2 decreases n + 1 - i
+//@   loop 3 invariant 1 <= i && i <= n + 1 && fresh(c) && len(c) == 8 * (n + 1)
+//@   loop 3 invariant forall k :: 0 <= k && k < n ==> (len(r[k]) == 8 && fresh(r[k]))
+//@   loop 3 decreases n + 1 - i
+//@   loop 4 invariant -1 <= rangeindex && rangeindex < 8
+//@   loop 4 invariant forall k :: 0 <= k && k < n ==> (len(r[k]) == 8 && fresh(r[k]))
+//@   loop 4 decreases 8 - rangeindex
+
+// Unwrap (RFC 3394 §2.2.2). Loops in source order: 0 = split cipherText[8:] into r[0..n); 1 = j in 5..0;
+// 2 = i in n..1. areg is the A register after the 6n steps; success requires it to equal the default IV.
+// Failing on the unchanged code (genuine defects, see report): make#0 (len(cipherText) < 8 gives n == -1),
+// pre:arrConcat (8 <= len < 16 and cipherText[:8] == IV: arrConcat() of nothing), and the two C03.kw.unwrap.*
+// length clauses (trailing bytes of a ciphertext whose length is not a multiple of 8 are silently ignored).
+//@ func Unwrap
+//@   tags C03 C07 C17
+//@   ghost areg bytes
+//@   requires block != nil && block.blocksize == 16
+//@   modifies nothing
+//@   ensures [C03.kw.unwrap.noout] result1 != nil ==> result == nil
+//@   ensures [C03.kw.unwrap.blocks] (len(cipherText) < 16 || len(cipherText) % 8 != 0) ==> result1 != nil
+//@   ensures [C03.kw.unwrap.len] result1 == nil ==> (fresh(result) && len(result) == len(cipherText) - 8)
+//@   ensures [C03.kw.unwrap.integrity] result1 == nil ==> (len(defaultIV) == 8 && (forall k :: 0 <= k && k < 8 ==> areg[k] == defaultIV[k]))
+//@   at return ghost areg = lambda k :: a[k]
+//@   loop 0 invariant -1 <= rangeindex && rangeindex < len(r) && len(r) == n && fresh(r) && 0 <= n && 8 * (n + 1) <= len(cipherText) && len(cipherText) < 8 * (n + 2)
+//@   loop 0 invariant forall k :: 0 <= k && k <= rangeindex ==> (len(r[k]) == 8 && fresh(r[k]))
+//@   loop 0 decreases len(r) - rangeindex
+//@   loop 1 invariant -1 <= j && j <= 5
+//@   loop 1 invariant forall k :: 0 <= k && k < n ==> (len(r[k]) == 8 && fresh(r[k]))
+//@   loop 1 decreases j + 1
+//@   loop 2 invariant 0 <= i && i <= n
+//@   loop 2 invariant forall k :: 0 <= k && k < n ==> (len(r[k]) == 8 && fresh(r[k]))
+//@   loop 2 decreases i
+//@   replay template aeskwunwrap
+//@   replay val ctlen = len(cipherText)
